@@ -30,7 +30,9 @@ def families(run, rng, quick):
     cs, _ = loadfam.gen_cases(run, "MC_Fk", "MC_Fk_quick.cfg")
     out.append(("fk-graphs", take(cs), "Trace_Fk", "Trace_Fk.cfg", {"ORACLE": oracle}))
     cs, _ = loadfam.gen_cases(run, "MC_Plurals", "MC_Plurals_quick.cfg")
-    out.append(("plurals", take(cs)[: (40 if quick else 400)], "Trace_Plurals", "Trace_Plurals.cfg", {"ORACLE": oracle}))
+    # (the project with several plural keys first: the order of its many diagnostics must not vary from run to run)
+    multi = [c for c in cs if c["abs"].get("multi")]
+    out.append(("plurals", multi + [c for c in take(cs) if not c["abs"].get("multi")][: (40 if quick else 400)], "Trace_Plurals", "Trace_Plurals.cfg", {"ORACLE": oracle}))
     cs, _ = loadfam.gen_cases(run, "MC_Ranges", "MC_Ranges_quick.cfg")
     out.append(("ranges", take(cs), "Trace_Ranges", "Trace_Ranges.cfg", {}))
     vs, _ = loadfam.gen_cases(run, "MC_Value", "MC_Value_quick.cfg")
@@ -113,7 +115,7 @@ def _family(run, fam, plan):
                                   {"family": name, "dir": wd, "line": r["l"]})
         # generated code: the token text of the real code generator must be identical across two fresh runs and
         # across a permutation of the key order (variants 0 = identity and 1 = seeded permutation, both JSON)
-        if name in ("fk-families", "values", "keys", "fallback"):
+        if name in ("fk-families", "values", "keys", "fallback", "plurals"):
             cg = vp.cargo_build("drv_codegen")
             outs = []
             for which, tg in ((0, "a"), (0, "b"), (1, "p")):
